@@ -6,6 +6,8 @@ from .C09 import build
 
 def run(ctx):
     _run(ctx)
+    ctx.delegate("C12", ["C12.retry"], "C04.retry",
+                 "the .shx header still gets its length 50+4n when a finalize failed and is retried (or run by drop)", floor=4)
     ctx.delegate("C09", ["C09.ctor", "C09.W5"], "C04.commit",
                  "for n = 0 too the .shx is the header with length 50: a new writer is dirty, so drop emits both headers", floor=3)
 
